@@ -1,8 +1,9 @@
 import NasdaqModel.Lemmas.GenFixLoad
 /-
-C16 — known finding (DESIGN §6 #13, /verif/fixes/C16-fix42.md): a valid FIX 4.2 dictionary cannot be generated.
-`parse` accepts it (`version_types.py` has a 4.2 table, the CLI offers `--fix-version 4.2`) and `Definitions._client_session`
-then raises `ValueError('Version 4.2 is not supported')` because `fix/session.py` has no 4.2 session class.
+C16 — former known finding (DESIGN §6 #13, /verif/fixes/C16-fix42.md), repaired by /repo commit b154f58: a valid FIX 4.2
+dictionary could not be generated (`Definitions._client_session` raised `ValueError('Version 4.2 is not supported')`; the model
+then had `gen dict42 = .error .value` and `d.version = .v42 → gen d ≠ .ok m`).  The counterexample is kept, inverted, as a
+regression: it must generate, import, and derive its session from `Fix42Session`.
 -/
 namespace NasdaqModel.Witness.C16
 open NasdaqModel Py GenFix Spec.FixDict
@@ -12,20 +13,14 @@ def dict42 : Dict :=
   ⟨.v42, [.messages [⟨lit "Heartbeat", lit "0", lit "admin", [.field (lit "TestReqID") (some (lit "N"))]⟩],
           .fields [⟨lit "112", lit "TestReqID", lit "STRING", []⟩]]⟩
 
-/-- it is a valid dictionary (inside the property's quantifier) … -/
-theorem C16_witness_fix42_valid : wfDict dict42 = true := by decide
+theorem C16_regression_fix42_valid : wfDict dict42 = true := by decide
 
-/-- … `parse` accepts it … -/
-theorem C16_witness_fix42_parses : (parse dict42).toBool = true := by decide
+theorem C16_regression_fix42_generates : (gen dict42).toBool = true := by decide
 
-/-- … and generation fails with `ValueError` -/
-theorem C16_witness_fix42 : gen dict42 = .error .value := by decide
+theorem C16_regression_fix42_session : (genLoad dict42).toOption.map (·.session) = some .Fix42Session := by decide
 
-/-- and so does it for every 4.2 dictionary whatsoever: nothing is ever generated -/
-theorem C16_witness_fix42_never (d : Dict) (h : d.version = .v42) (m : Module) : gen d ≠ .ok m := by
-  intro hg
-  obtain ⟨sess, hs⟩ := gen_ok_version hg
-  rw [h] at hs
-  simp [clientSession] at hs
+/-- the only way `_client_session` can still fail is a version `parse` has already refused -/
+theorem C16_regression_client_session (v : Version) (h : supportedVersion v = true) : ∃ s, clientSession v = .ok s := by
+  cases v <;> simp_all [supportedVersion, clientSession]
 
 end NasdaqModel.Witness.C16
